@@ -674,7 +674,15 @@ class HttpRequestParser(HttpParser[RawRequestMessage]):
         if method == "CONNECT":
             # authority-form,
             # https://datatracker.ietf.org/doc/html/rfc7230#section-5.3.3
-            url = URL.build(authority=path, encoded=True)
+            try:
+                url = URL.build(authority=path, encoded=True)
+                # yarl validates the authority lazily; do it now so a bad
+                # host/port is a 400 here and not a crash in the request handler.
+                url.host, url.port
+            except ValueError:
+                raise InvalidURLError(
+                    path.encode(errors="surrogateescape").decode("latin1")
+                ) from None
         elif path.startswith("/"):
             # origin-form,
             # https://datatracker.ietf.org/doc/html/rfc7230#section-5.3.1
@@ -697,7 +705,15 @@ class HttpRequestParser(HttpParser[RawRequestMessage]):
         else:
             # absolute-form for proxy maybe,
             # https://datatracker.ietf.org/doc/html/rfc7230#section-5.3.2
-            url = URL(path, encoded=True)
+            try:
+                url = URL(path, encoded=True)
+                # yarl validates the authority lazily; do it now so a bad
+                # host/port is a 400 here and not a crash in the request handler.
+                url.host, url.port
+            except ValueError:
+                raise InvalidURLError(
+                    path.encode(errors="surrogateescape").decode("latin1")
+                ) from None
             if not url.absolute:
                 # authority-form is only allowed with CONNECT
                 # https://www.rfc-editor.org/info/rfc9112/#section-3.2.3-1
